@@ -54,12 +54,15 @@ class Tokenizer:
                 tok = self._stack.pop()
             else:
                 tok = next(self._tokengen)
+            if not self._path:
+                # remember every physical line seen (blank and comment lines, and all the
+                # lines of a multi-line token) so that error reports can quote any span
+                for i, line in enumerate(tok.line.splitlines(keepends=True) if tok.line else ()):
+                    self._lines.setdefault(tok.start[0] + i, line)
             if self.is_blank(tok):
                 continue
 
             self._tokens.append(tok)
-            if not self._path and tok.start[0] not in self._lines:
-                self._lines[tok.start[0]] = tok.line
         return self._tokens[self._index]
 
     def is_blank(self, tok: TokenInfo) -> bool:
